@@ -48,71 +48,71 @@ ObsOf(s, bs) == [base |-> bs, d1 |-> ObsSpan("d1", s.d1, bs), d2 |-> ObsSpan("d2
                  k |-> ObsSpan("k", s.k, bs), c |-> ObsSpan("c", s.c, bs)]
 
 Go == ~Hist \/ Len(hist) < Depth + 1
-Step(op, x, y, i, v, s2, b2) ==
+Step(op, x, y, how, i, v, s2, b2) ==
   /\ Go
   /\ sp' = s2 /\ base' = b2
   /\ hist' = IF ~Hist THEN hist
-             ELSE Append(hist, [op |-> op, x |-> x, y |-> y, i |-> i, v |-> v, exp |-> ObsOf(s2, b2)])
+             ELSE Append(hist, [op |-> op, x |-> x, y |-> y, how |-> how, i |-> i, v |-> v, exp |-> ObsOf(s2, b2)])
 Set(x, w) == [sp EXCEPT ![x] = w]
 
 Init == /\ base \in UNION {[1..n -> {0}] : n \in 0..MaxLen}     \* zero-filled, length 0..MaxLen
         /\ sp = [d1 |-> Unset, d2 |-> Unset, k |-> Unset, c |-> Unset]
-        /\ hist = IF Hist THEN <<[op |-> "init", x |-> "", y |-> "", i |-> 0, v |-> 0, exp |-> ObsOf(sp, base)]>> ELSE <<>>
+        /\ hist = IF Hist THEN <<[op |-> "init", x |-> "", y |-> "", how |-> "", i |-> 0, v |-> 0, exp |-> ObsOf(sp, base)]>> ELSE <<>>
 
 (* ---- construction ------------------------------------------------------ *)
 Default(x) ==                 \* span<int> x;   span<int, 0> k;
   /\ x \in Dyn \cup {"k"}
-  /\ Step("Default", x, "", 0, 0, Set(x, NullS), base)
+  /\ Step("Default", x, "", "", 0, 0, Set(x, NullS), base)
 
 PtrCount(x, off, len) ==      \* span<int> x(base + off, len)
   /\ x \in Dyn /\ off + len <= L
-  /\ Step("PtrCount", x, "", off, len, Set(x, Win(off, len)), base)
+  /\ Step("PtrCount", x, "", "", off, len, Set(x, Win(off, len)), base)
 
 Range(x, off, len) ==         \* span<int> x(base + off, base + off + len)
   /\ x \in Dyn /\ off + len <= L
-  /\ Step("Range", x, "", off, len, Set(x, Win(off, len)), base)
+  /\ Step("Range", x, "", "", off, len, Set(x, Win(off, len)), base)
 
-\* the whole base as a C array int[L] (L >= 1), a std::array<int, L>, a container with data()/size()
+\* the whole base as a C array int[L] or a std::array<int, L> (L >= 1), or a container with data()/size()
 Whole(x, how) ==
   /\ x \in Dyn /\ how \in {"carray", "stdarray", "container"}
-  /\ (how = "carray" => L >= 1)
-  /\ Step("Whole", x, how, 0, 0, Set(x, Win(0, L)), base)
+  /\ (how \in {"carray", "stdarray"} => L >= 1)
+  /\ Step("Whole", x, "", how, 0, 0, Set(x, Win(0, L)), base)
 
 \* span<const int> c(...) from a const C array / const std::array / const container
 ConstWhole(how) ==
-  /\ how \in {"carray", "stdarray", "container"} /\ (how = "carray" => L >= 1)
-  /\ Step("ConstWhole", "c", how, 0, 0, Set("c", Win(0, L)), base)
+  /\ how \in {"carray", "stdarray", "container"} /\ (how \in {"carray", "stdarray"} => L >= 1)
+  /\ Step("ConstWhole", "c", "", how, 0, 0, Set("c", Win(0, L)), base)
 
 StaticWhole(how) ==           \* span<int, L> k(array)
-  /\ how \in {"carray", "stdarray", "container"} /\ (how = "carray" => L >= 1)
-  /\ Step("StaticWhole", "k", how, 0, 0, Set("k", Win(0, L)), base)
+  /\ how \in {"carray", "stdarray", "container"} /\ (how \in {"carray", "stdarray"} => L >= 1)
+  /\ Step("StaticWhole", "k", "", how, 0, 0, Set("k", Win(0, L)), base)
 
 StaticFrom(y, how) ==         \* span<int, N> k(y.data(), N) / k(y.begin(), y.end()) with N = y.size()
   /\ y \in Dyn /\ sp[y].st = "win" /\ how \in {"ptrcount", "range"}
-  /\ Step("StaticFrom", "k", y, 0, 0, Set("k", sp[y]), base)
+  /\ Step("StaticFrom", "k", y, how, 0, 0, Set("k", sp[y]), base)
 
 (* ---- copy, assignment, conversion ---------------------------------------- *)
 CopyCtor(x, y) ==             \* span<int> x(y);
   /\ x \in Dyn /\ y \in Dyn /\ x # y /\ sp[y].st # "unset"
-  /\ Step("CopyCtor", x, y, 0, 0, Set(x, sp[y]), base)
+  /\ Step("CopyCtor", x, y, "", 0, 0, Set(x, sp[y]), base)
 
 Assign(x, y) ==               \* x = y;  (including x = x)
   /\ x \in Dyn /\ y \in Dyn /\ sp[x].st # "unset" /\ sp[y].st # "unset"
-  /\ Step("Assign", x, y, 0, 0, Set(x, sp[y]), base)
+  /\ Step("Assign", x, y, "", 0, 0, Set(x, sp[y]), base)
 
 DynFromStatic(x) ==           \* span<int> x(k);   static -> dynamic extent
   /\ x \in Dyn /\ sp.k.st # "unset"
-  /\ Step("DynFromStatic", x, "k", 0, 0, Set(x, sp.k), base)
+  /\ Step("DynFromStatic", x, "k", "", 0, 0, Set(x, sp.k), base)
 
 ConstFrom(y) ==               \* span<const int> c(y);   y dynamic or static
   /\ y \in Dyn \cup {"k"} /\ sp[y].st # "unset"
-  /\ Step("ConstFrom", "c", y, 0, 0, Set("c", sp[y]), base)
+  /\ Step("ConstFrom", "c", y, "", 0, 0, Set("c", sp[y]), base)
 
 (* ---- element access -------------------------------------------------------- *)
 Write(x, i, v) ==             \* x[i] = v   (i < x.size()): seen through every aliasing span
   /\ x \in Dyn \cup {"k"} /\ sp[x].st = "win" /\ i < sp[x].len
   /\ v = (base[sp[x].off + i + 1] + 1) % 3        \* one new value per element keeps the branching small
-  /\ Step("Write", x, "", i, v, sp, [base EXCEPT ![sp[x].off + i + 1] = v])
+  /\ Step("Write", x, "", "", i, v, sp, [base EXCEPT ![sp[x].off + i + 1] = v])
 
 Next == \/ \E x \in Dyn \cup {"k"} : Default(x)
         \/ \E x \in Dyn, off \in 0..MaxLen, len \in 0..MaxLen : PtrCount(x, off, len) \/ Range(x, off, len)
